@@ -83,6 +83,7 @@ int main() {
   O(Connection_control, Header::Connection, control_); O(Expect_expectation, Header::Expect, expectation_); S(HdrConnection, Header::Connection); S(HdrEncoding, Header::EncodingHeader); S(HdrExpect, Header::Expect); S(HdrContentLength, Header::ContentLength);
   printf("#define VP_CC_CLOSE %d\n#define VP_CC_KEEPALIVE %d\n#define VP_CC_EXT %d\n#define VP_EXPECT_CONTINUE %d\n#define VP_EXPECT_EXT %d\n", (int)ConnectionControl::Close, (int)ConnectionControl::KeepAlive, (int)ConnectionControl::Ext, (int)Expectation::Continue, (int)Expectation::Ext);
   printf("#define VP_ENC_VALUES %d,%d,%d,%d,%d,%d\n", (int)Header::Encoding::Gzip, (int)Header::Encoding::Compress, (int)Header::Encoding::Deflate, (int)Header::Encoding::Identity, (int)Header::Encoding::Chunked, (int)Header::Encoding::Unknown);
+  O(ResponseStream_buf, ResponseStream, buf_); O(ResponseStream_transport, ResponseStream, transport_); S(ResponseStream, ResponseStream);
   printf("#define SIZEOF_WriteDeque %zu\n", sizeof(std::deque<Tcp::Transport::WriteEntry>));
   printf("#define VP_MIME_TYPES ");
 #define TYPE(val, str) printf("\"%s\",", str);
